@@ -254,7 +254,7 @@ func latchOf(l *Loop) *ssa.BasicBlock {
 // reachedOnEveryNonEmptyPath: every return of the update either follows the loop or lies on the
 // emptied-pool path (which re-creates the pool from the new list) or is an error return before any effect.
 func reachedOnEveryNonEmptyPath(fn *ssa.Function, rng *ssa.Range, pl *pool) bool {
-	cs := newCondSpace(fn, recOf(eqAtom("poolEmpty", lenOfField("gcpBalancer.scRefs"), constIs(0))), "poolEmpty")
+	cs := newCondSpace(fn, recOf(lenZeroAtom("poolEmpty", lenOfField("gcpBalancer.scRefs"))), "poolEmpty")
 	for _, r := range returnsOf(fn) {
 		if dominatesInstr(rng, r) {
 			continue
